@@ -867,8 +867,9 @@ class PteraTransformer(NodeTransformer):
         """
         stmts = [node]
         for alias in node.names:
-            name = alias.asname or alias.name
-            if "." not in name:
+            # ``import a.b`` binds ``a``
+            name = alias.asname or alias.name.split(".")[0]
+            if name != "*":
                 name_node = ast.copy_location(
                     ast.Name(id=name, context=ast.Load()),
                     node,
